@@ -50,7 +50,7 @@ def gen_tests(rnd):
         code = rnd.choice([0, 0, 0, 1, 77, 99, 3])
         slow = rnd.random() < 0.12
         tests.append({'name': f't{i}' + ('z' if slow and rnd.random() < 0.5 else ''), 'dur': 0.7 if slow else rnd.choice([0.02, 0.05, 0.1, 0.15]), 'code': code, 'parallel': rnd.random() < 0.65, 'priority': rnd.choice([0, 0, 5, -3]),
-                      'should_fail': rnd.random() < 0.25, 'timeout': 1 if slow else 30, 'suite': rnd.choice(['a', 'b'])})
+                      'should_fail': rnd.random() < 0.25, 'timeout': 1 if slow else 30, 'suite': rnd.choice(['a', 'b', 'ab'])})
     return tests
 
 
@@ -81,7 +81,7 @@ def _run_chunk(chunk):
             lines = ["project('tests')", "py = find_program('python3')", "prog = files('prog.py')"]
             for t in tests:
                 lines.append(f"test('{t['name']}', py, args: [prog, '{t['name']}', '{t['dur']}', '{t['code']}', '{logdir}'], is_parallel: {'true' if t['parallel'] else 'false'}, "
-                             f"priority: {t['priority']}, should_fail: {'true' if t['should_fail'] else 'false'}, timeout: {t['timeout']}, suite: '{t['suite']}')")
+                             f"priority: {t['priority']}, should_fail: {'true' if t['should_fail'] else 'false'}, timeout: {t['timeout']}, suite: {list(t['suite'])!r})")
             open(os.path.join(src, 'meson.build'), 'w').write('\n'.join(lines) + '\n')
             env = dict(os.environ, NINJA=stub_ninja(d))
             r = subprocess.run([sys.executable, os.path.join(repo, 'meson.py'), 'setup', build, src], capture_output=True, text=True, env=env)
@@ -91,6 +91,8 @@ def _run_chunk(chunk):
             invocations = [(['--num-processes', str(rnd.choice([1, 2, 3, 4]))], 'plain'),
                            (['--num-processes', str(rnd.choice([2, 3])), '--repeat', '2'], 'repeat'),
                            (['--num-processes', '2', '--suite', 'a'], 'suite'),
+                           # a test in both an included and an excluded suite is excluded
+                           (['--num-processes', '2', '--suite', 'a', '--no-suite', 'b'], 'suite-nosuite'), (['--num-processes', '2', '--no-suite', 'a'], 'nosuite'),
                            (['--num-processes', '3', '--slice', '1/2'], 'slice1'), (['--num-processes', '3', '--slice', '2/2'], 'slice2'),
                            # test-name arguments whose patterns overlap (a name, a glob, the project-qualified spelling): still once each
                            (['--num-processes', '2', tests[0]['name'], 't*', 'tests:' + tests[-1]['name']], 'names')]
@@ -108,7 +110,7 @@ def _run_chunk(chunk):
                 case = {'generator_seed': seed, 'arguments': extra, 'tests': [[t['name'], t['code'], t['parallel'], t['should_fail'], t['dur'], t['suite']] for t in tests]}
                 jobs = int(extra[1])
                 reps = 2 if kind == 'repeat' else 1
-                selected = [t for t in tests if kind != 'suite' or t['suite'] == 'a']
+                selected = [t for t in tests if (kind not in ('suite', 'suite-nosuite') or 'a' in t['suite']) and (kind != 'suite-nosuite' or 'b' not in t['suite']) and (kind != 'nosuite' or 'a' not in t['suite'])]
                 runs = {}
                 for f in os.listdir(logdir):
                     tid = f.split('.')[0]
@@ -189,7 +191,7 @@ def run(REG, tier, seed, jobs):
     # the schedule is timing sensitive: at most 4 projects at a time, so that the machine is not oversubscribed
     ev, nt, fails = pmap(_run_chunk, chunked(iter(seeds), 1), min(jobs, 4))
     return {'parts': [{'name': 'C12/bounded/real-meson-test-runs', 'function': 'meson test --no-rebuild (real scheduler, subprocesses, loggers)',
-                       'bound': f'{n} generated test sets of 3-8 tests (three in ten of the shape: an early long parallel test, more short parallel tests than job slots, then a non-parallel one; parallel/serial, priorities, durations 20 ms - 0.7 s, exit 0/1/3/77/99, should_fail, a timeout, some of them exiting with their normal status when terminated) x 6 invocations (overlapping test-name arguments, --num-processes 1-4, --repeat 2, --suite, --slice 1/2 and 2/2)',
+                       'bound': f'{n} generated test sets of 3-8 tests (three in ten of the shape: an early long parallel test, more short parallel tests than job slots, then a non-parallel one; parallel/serial, priorities, durations 20 ms - 0.7 s, exit 0/1/3/77/99, should_fail, a timeout, some of them exiting with their normal status when terminated) x 8 invocations (overlapping test-name arguments, --suite with --no-suite on tests that belong to two suites, --num-processes 1-4, --repeat 2, --suite, --slice 1/2 and 2/2)',
                        'evaluations': ev, 'distinct_nontrivial': nt, 'rule': 'every invocation', 'exhaustive': False, 'failures': fails}]}
 
 
